@@ -21,7 +21,7 @@ func init() {
 			"D3 reference strings — the external-reference type the SPDX exporter writes is one of the constants the importer's purl branch compares against, and that branch (and the CycloneDX importer) parses exactly the locator / PackageURL field of the record it is looking at, with the result used only on success (C14 D1-parsed-url) and handed back unchanged by the SBOM extractors' ToPURL; " +
 			"D4 only sanctioned omissions — the decisions after which an inventory package is not exported (ToSPDX23, ToCDX) or a document entry is not imported (convertSpdxDocToPackage, enumerateComponents, convertComponentToInventory) are exactly the audited ones, rendered by the definition of the tested value (so testing pkg.Name instead of the package URL's name is a different decision); " +
 			"D5 supplier shape — every common.Supplier / common.Originator literal the library builds is one the tag-value grammar can express (type Person/Organization, or NOASSERTION without a type). " +
-			"NOT decided: that the written bytes parse back to the same URLs for every inventory (escaping in JSON/YAML/XML/tag-value, namespaces, qualifiers, sub-paths: behaviour of tools-golang, cyclonedx-go and packageurl-go, outside the analysed source), multiset equality, duplicate handling.",
+			"Added in round 3: the SBOM writers open their output with truncation. NOT decided: that the written bytes parse back to the same URLs for every inventory (escaping in JSON/YAML/XML/tag-value, namespaces, qualifiers, sub-paths: behaviour of tools-golang, cyclonedx-go and packageurl-go, outside the analysed source), multiset equality, duplicate handling.",
 		Assume: []string{
 			"tools-golang's <format>.Read parses what the same package's Write produced, except for the supplier grammar encoded in D5 (read from tools-golang v0.5.3 tagvalue reader: a supplier is NOASSERTION or '<Person|Organization>: name')",
 			"cyclonedx-go decodes what it encoded for the same BOMFileFormat",
